@@ -78,7 +78,7 @@ def check_guards(ctx, wm: WeaverModel):
               wm.init.fi.qualname, 'len-mismatch-order')
     # 2 non (N,2) array
     fi = ctx.prog.func(WEAVER + '.from_2d_array')
-    xy = Term('param', (Const('xy'),), kind='ndarray')
+    xy = Term('param', (Const('xy'),), kind='unknown')
     ev = Evaluator(ctx.prog, inline=lambda f: False, opaque_kind=REPO_RESULT_KIND)
     ev.run_function(fi, args={'xy': xy})
     rs = [e for e in ev.events if e.kind == 'raise']
